@@ -37,7 +37,7 @@ VARIABLES
 vars == <<h, level, split, nkeys, main, ovf, free, live, nops>>
 
 EmptyB == [slots |-> <<>>, next |-> 0]
-Pow2(n) == IF n = 0 THEN 1 ELSE IF n = 1 THEN 2 ELSE IF n = 2 THEN 4 ELSE IF n = 3 THEN 8 ELSE 16
+Pow2(n) == 2^n
 
 BIdx(hv, lv, sp) == LET b == hv % Pow2(lv) IN IF b < sp THEN hv % Pow2(lv + 1) ELSE b
 
